@@ -88,8 +88,8 @@ def check_neighbour_dot(run, pkg, fname):
         return
     L = it.loops[mev.loops[0]]
     i = L.target
-    okd = L.iter == ("call", "builtins.range", (("sub", ("attr", VEC, "shape"), C(0)),), ())
-    run.ob("R-LOOPDOM", fq, "particles", okd, "every particle is visited", show(L.iter)[:60], witness=None if okd else "particles skipped", loc=fi.loc(L.node))
+    okd = eqv(L.iter, ("call", "builtins.range", (("sub", ("attr", VEC, "shape"), C(0)),), ()))
+    run.ob("R-LOOPDOM", fq, "particles", okd, "every particle is visited", show(L.iter)[:60], witness=None if okd else "particles skipped", loc=fi.loc(L.node), sound=True)
     p = med[2][0]
     ok = False
     if p[0] == "bin" and p[1] == "*":
@@ -186,8 +186,8 @@ def check_divcurl(run, pkg):
         loc = loc_of(it, ev)
         L = it.loops[ev.loops[0]]
         i = L.target
-        okd = L.iter == ("call", "builtins.range", (N,), ())
-        run.ob("R-LOOPDOM", fq, f"{tag}:particles", okd, "every particle is visited", show(L.iter)[:60], witness=None if okd else "particles skipped", loc=fi.loc(L.node))
+        okd = eqv(L.iter, ("call", "builtins.range", (N,), ()))
+        run.ob("R-LOOPDOM", fq, f"{tag}:particles", okd, "every particle is visited", show(L.iter)[:60], witness=None if okd else "particles skipped", loc=fi.loc(L.node), sound=True)
         inner = ev.data["value"][2][0]
         R = U = None
         if inner[0] == "call" and inner[1] == ".sum" and kw(inner, "axis", 1) == C(1) and inner[2][0][0] == "bin" and inner[2][0][1] == "*":
@@ -203,15 +203,15 @@ def check_divcurl(run, pkg):
                    witness="neighbours across the periodic boundary give box-length r_ij: divergence and curl blow up at the faces" if raw else None, loc=loc)
             continue
         bv = bond_vectors(R)
-        okb = bv is not None and bv["snap"] == ("sym", "snapshot") and is_nbr_slice(bv["left"], NL, i) and bv["right"] == i
-        run.ob("R-PBC", fq, f"{tag}:rij", okb, "r_ij = positions[neighbours of i] - positions[i] (columns 1..cn_i)", show(R)[:90], witness=None if okb else "relative positions not from i to its neighbours", loc=loc)
+        okb = tri_lazy(lambda: (True if (bv is not None) else None), lambda: eqv(bv["snap"], ("sym", "snapshot")), lambda: (True if (is_nbr_slice(bv["left"], NL, i)) else None), lambda: (True if (bv["right"] == i) else None))
+        run.ob("R-PBC", fq, f"{tag}:rij", okb, "r_ij = positions[neighbours of i] - positions[i] (columns 1..cn_i)", show(R)[:90], witness=None if okb else "relative positions not from i to its neighbours", loc=loc, sound=True)
         if bv is not None:
-            okh = bv["H"] == ("attr", ("sym", "snapshot"), "hmatrix") and bv["ppp"] == ("sym", "ppp")
+            okh = tri_lazy(lambda: eqv(bv["H"], ("attr", ("sym", "snapshot"), "hmatrix")), lambda: eqv(bv["ppp"], ("sym", "ppp")))
             run.ob("R-PBC", fq, f"{tag}:cell-mask", okh, "minimum image uses the snapshot's cell and the caller's mask", f"{show(bv['H'])[:30]}, {show(bv['ppp'])[:20] if bv['ppp'] else 'default'}",
-                   witness=None if okh else "cell / mask not forwarded", loc=loc)
-        oku = U[0] == "bin" and U[1] == "-" and U[2][0] == "sub" and U[2][1] == VEC and bv is not None and U[2][2] == bv["left"] and row_bcast(U[3]) == ("sub", VEC, i)
+                   witness=None if okh else "cell / mask not forwarded", loc=loc, sound=True)
+        oku = tri_lazy(lambda: (True if (U[0] == "bin") else None), lambda: (True if (U[1] == "-") else None), lambda: (True if (U[2][0] == "sub") else None), lambda: eqv(U[2][1], VEC), lambda: (True if (bv is not None) else None), lambda: (True if (U[2][2] == bv["left"]) else None), lambda: eqv(row_bcast(U[3]), ("sub", VEC, i)))
         run.ob("R-ALIGN", fq, f"{tag}:uij", bool(oku), "u_ij = vector[same neighbours] - vector[i]: same slice and centre as r_ij", show(U)[:90],
-               witness=None if oku else "field differences belong to other particles than the position differences", loc=loc)
+               witness=None if oku else "field differences belong to other particles than the position differences", loc=loc, sound=True)
         okt = ev.data["target"][2] == i
         run.ob("R-ALG", fq, f"{tag}:divergence", okt, "divergence[i] = mean over neighbours of r_ij . u_ij", key_of(ev)[:80], witness=None if okt else "stored at another index", loc=loc)
         if ndim == 3:
@@ -223,12 +223,10 @@ def check_divcurl(run, pkg):
                 Lj = it.loops[cr[0].loops[1]]
                 j = Lj.target
                 v = cr[0].data["value"]
-                okc = Lj.iter == ("call", "builtins.range", (nbr_count(NL, i),), ()) and cr[0].data["target"][2] == i and \
-                    v == ("call", "numpy.cross", (("sub", R, j), ("sub", U, j)), ()) and dvs[0].data["target"] == cr[0].data["target"] and dvs[0].data["value"] == nbr_count(NL, i) \
-                    and dvs[0].seq > cr[0].seq
+                okc = tri_lazy(lambda: eqv(Lj.iter, ("call", "builtins.range", (nbr_count(NL, i),), ())), lambda: (True if (cr[0].data["target"][2] == i) else None), lambda: eqv(v, ("call", "numpy.cross", (("sub", R, j), ("sub", U, j)), ())), lambda: (True if (dvs[0].data["target"] == cr[0].data["target"]) else None), lambda: eqv(dvs[0].data["value"], nbr_count(NL, i)), lambda: (True if (dvs[0].seq > cr[0].seq) else None))
                 rev = v == ("call", "numpy.cross", (("sub", U, j), ("sub", R, j)), ())
             run.ob("R-ALG", fq, "3D:curl", okc, "curl[i] = sum_j r_ij x u_ij / cn_i (r first, u second; same bond j in both)", key_of(cr[0])[:80] if cr else "?",
-                   witness=None if okc else ("u x r: the curl changes sign" if cr and rev else "curl is not the neighbour average of r x u"), loc=loc_of(it, cr[0]) if cr else fi.loc())
+                   witness=None if okc else ("u x r: the curl changes sign" if cr and rev else "curl is not the neighbour average of r x u"), loc=loc_of(it, cr[0]) if cr else fi.loc(), sound=True)
             ret = [r for r in it.returns]
             okr = len(ret) == 1 and ret[0].data["value"][0] == "tuple" and ret[0].data["value"][1][0] == ev.data["target"][1] and cr and ret[0].data["value"][1][1] == cr[0].data["target"][1]
             run.ob("R-ALG", fq, "3D:return", bool(okr), "3D returns (divergence, curl)", "", witness=None if okr else "return order changed", loc=fi.loc())
@@ -248,8 +246,8 @@ def check_vibrability(run, pkg):
     L = it.loops[ev.loops[0]]
     k = L.target
     EV, FR, N = ("sym", "eigenvectors"), ("sym", "eigenfrequencies"), ("sym", "num_of_partices")
-    okd = L.iter == ("call", "builtins.range", (("sub", ("attr", EV, "shape"), C(1)),), ())
-    run.ob("R-LOOPDOM", fq, "modes", okd, "the sum runs over all modes (columns of the eigenvector matrix)", show(L.iter)[:60], witness=None if okd else "modes skipped / rows counted", loc=fi.loc(L.node))
+    okd = eqv(L.iter, ("call", "builtins.range", (("sub", ("attr", EV, "shape"), C(1)),), ()))
+    run.ob("R-LOOPDOM", fq, "modes", okd, "the sum runs over all modes (columns of the eigenvector matrix)", show(L.iter)[:60], witness=None if okd else "modes skipped / rows counted", loc=fi.loc(L.node), sound=True)
     v = ev.data["value"]
     mode = ("call", ".reshape", (("sub", EV, ("tuple", (FULL, k))), N, C(-1)), ())
     want = ("bin", "/", ("call", ".sum", (("call", "numpy.square", (mode,), ()),), (("axis", C(1)),)), ("sub", ("call", "numpy.square", (FR,), ()), k))
@@ -257,9 +255,9 @@ def check_vibrability(run, pkg):
     rowmode = any(x == ("sub", EV, k) or x == ("sub", EV, ("tuple", (k, FULL))) for x in walk(v))
     run.ob("R-IDX", fq, "term", ok, "mode k contributes |e_k,i|^2 / omega_k^2 with e_k = column k reshaped to (N, d)", show(v)[:120],
            witness=None if ok else ("row k used as mode k: eigh returns modes as columns" if rowmode else "term differs from |e_k,i|^2 / omega_k^2"), loc=loc_of(it, ev))
-    okinit = ev.data["old"][0] == "mu" and ev.data["old"][3] == ("call", "numpy.zeros", (N,), ())
+    okinit = tri_lazy(lambda: (True if (ev.data["old"][0] == "mu") else None), lambda: eqv(ev.data["old"][3], ("call", "numpy.zeros", (N,), ())))
     okret = len(it.returns) == 1 and it.returns[0].data["value"] == ev.data["new"]
-    run.ob("R-ALG", fq, "sum", okinit and okret, "the per-particle sum starts at zero and is returned", "", witness=None if okinit and okret else "initial value / return changed", loc=fi.loc())
+    run.ob("R-ALG", fq, "sum", okinit and okret, "the per-particle sum starts at zero and is returned", "", witness=None if okinit and okret else "initial value / return changed", loc=fi.loc(), sound=True)
 
 
 def check_split(run, pkg):
@@ -296,8 +294,8 @@ def check_split(run, pkg):
     loc = loc_of(it, ev)
     L = it.loops[ev.loops[0]]
     n = L.target
-    okd = L.iter == ("call", "builtins.range", (("sub", ("attr", ("sym", "qvector"), "shape"), C(0)),), ())
-    run.ob("R-LOOPDOM", fq, "wavevectors", okd, "every wave vector is decomposed", show(L.iter)[:60], witness=None if okd else "wave vectors skipped", loc=fi.loc(L.node))
+    okd = eqv(L.iter, ("call", "builtins.range", (("sub", ("attr", ("sym", "qvector"), "shape"), C(0)),), ()))
+    run.ob("R-LOOPDOM", fq, "wavevectors", okd, "every wave vector is decomposed", show(L.iter)[:60], witness=None if okd else "wave vectors skipped", loc=fi.loc(L.node), sound=True)
     Lz = ev.data["target"][1]
     Fc = Lz[2][0]
     nd = ("sub", ("attr", ("sym", "qvector"), "shape"), C(1))
@@ -325,8 +323,8 @@ def check_split(run, pkg):
                 okL = ev.data["target"][2] == n and ((d[0] == ("sub", U, n) and d[1] == ("sub", Fc, n)) or (d[1] == ("sub", U, n) and d[0] == ("sub", Fc, n))) and y[1] != "numpy.vdot"
     run.ob("R-ALG", fq, "longitudinal", okL, "L(q_n) = u_n (u_n . F(q_n)) with u_n real (no conjugation of F)", show(v)[:110], witness=None if okL else "projection is not along q / uses another wave vector's transform", loc=loc)
     if U is not None:
-        oku = U[0] == "bin" and U[1] == "/" and is_cols(U[2], "q", F0) and col_bcast(U[3]) == ("attr", ("sub", F0, C("q")), "values") and U[3] != col_bcast(U[3])
-        run.ob("R-ALG", fq, "unit-q", oku, "u = (q0..q{d-1}) / |q| row by row, both from the transform's own table", show(U)[:110], witness=None if oku else "u is not a unit vector along q: L is not a projection, S != S_L + S_T", loc=loc)
+        oku = tri_lazy(lambda: (True if (U[0] == "bin") else None), lambda: (True if (U[1] == "/") else None), lambda: (True if (is_cols(U[2], "q", F0)) else None), lambda: eqv(col_bcast(U[3]), ("attr", ("sub", F0, C("q")), "values")), lambda: (True if (U[3] != col_bcast(U[3])) else None))
+        run.ob("R-ALG", fq, "unit-q", oku, "u = (q0..q{d-1}) / |q| row by row, both from the transform's own table", show(U)[:110], witness=None if oku else "u is not a unit vector along q: L is not a projection, S != S_L + S_T", loc=loc, sound=True)
     # transverse := F - L
     Tt = None
     for e in it.events:
@@ -366,10 +364,9 @@ def check_fft_corr(run, pkg):
     k = dict(cs[0].data["call"][3])
     for p_, a_ in zip(pkg.func(DEC).params, cs[0].data["call"][2]):
         k[p_] = a_
-    ok = L.iter == ("call", "builtins.enumerate", (("attr", ("sym", "snapshots"), "snapshots"),), ()) and k.get("snapshot") == snap and k.get("qvector") == ("sym", "qvector") \
-        and k.get("vector") == ("sub", ("sym", "vectors"), n)
+    ok = tri_lazy(lambda: eqv(L.iter, ("call", "builtins.enumerate", (("attr", ("sym", "snapshots"), "snapshots"),), ())), lambda: (True if (k.get("snapshot") == snap) else None), lambda: eqv(k.get("qvector"), ("sym", "qvector")), lambda: eqv(k.get("vector"), ("sub", ("sym", "vectors"), n)))
     run.ob("R-ALIGN", fq, "per-frame", ok, "frame n is decomposed with the field of frame n and the caller's wave vectors", ", ".join(f"{a}={show(b)[:30]}" for a, b in k.items()),
-           witness=None if ok else "field of another frame used", loc=loc_of(it, cs[0]))
+           witness=None if ok else "field of another frame used", loc=loc_of(it, cs[0]), sound=True)
     tc = calls(it, "PyMatterSim.dynamic.time_corr.time_correlation")
     hdrs = sorted({show(x) for e in tc for x in walk(e.data["call"]) if x[0] == "fstr"})
     okh = len(tc) == 3
@@ -378,8 +375,8 @@ def check_fft_corr(run, pkg):
         kk = dict(e.data["call"][3])
         c = kk.get("condition")
         Lq = it.loops[e.loops[-1]] if e.loops else None
-        okq = Lq is not None and Lq.iter == ("call", "builtins.range", (("sub", ("attr", ("sym", "qvector"), "shape"), C(0)),), ())
-        oks = kk.get("snapshots") == ("sym", "snapshots") and kk.get("dt") == ("sym", "dt")
+        okq = tri_lazy(lambda: (True if (Lq is not None) else None), lambda: eqv(Lq.iter, ("call", "builtins.range", (("sub", ("attr", ("sym", "qvector"), "shape"), C(0)),), ())))
+        oks = tri_lazy(lambda: eqv(kk.get("snapshots"), ("sym", "snapshots")), lambda: eqv(kk.get("dt"), ("sym", "dt")))
         okc = False
         if c is not None and c[0] == "call" and c[1] == "numpy.array" and c[2][0][0] == "comp":
             comp = c[2][0]
@@ -387,4 +384,4 @@ def check_fft_corr(run, pkg):
             src = comp[3][0][1]
             okc = comp[2][0] == "sub" and comp[2][2] == Lq.target and comp[2][1][0] == "attr" and comp[2][1][2] == "values" and comp[2][1][1][0] == "sub" and comp[2][1][1][1] == item and src[0] == "appended"
         run.ob("R-ALIGN", fq, f"series@{e.lineno}:{show(kk.get('condition'))[20:50]}", bool(okq and oks and okc), "for wave vector n the series is row n of that column group in every frame, in frame order; trajectory and dt forwarded",
-               show(c)[:100] if c else "?", witness=None if okq and oks and okc else "series mixes wave vectors / frames", loc=loc_of(it, e))
+               show(c)[:100] if c else "?", witness=None if okq and oks and okc else "series mixes wave vectors / frames", loc=loc_of(it, e), sound=True)
